@@ -84,12 +84,14 @@ CLAIMED = {
             "positive definiteness, existence for every matrix / preference vector / reg_eps > 0), UPGrad the sum of the m projections; the model is executed on matrices whose largest "
             "singular value is exactly rational and compared with the real aggregators; KKT is also evaluated exactly on "
             "the implementation's own weights.", NOTE_AGG, "DESIGN.md §5 C03, §10"),
-    "C04": ("Lean 4 theorems (dualproj/upgrad_nonconflict, minnorm_certificate, mgda_nonconflict, mgda_fw_rate; C04b end to end: "
+    "C04": ("Lean 4 theorems (dualproj/upgrad_nonconflict, minnorm_certificate, minNorm_total [the min-norm point exists and the certified search finds it], "
+            "mgda_nonconflict, mgda_fw_rate, cagrad_nonconflict_of_optimality, weights_perturbation_row_bound; C04b end to end: "
             "backward with UPGrad/DualProj on any program succeeds and deposits a non-conflicting update) + the Lean "
             "predicate NonConflictUpTo evaluated exactly on the implementation's output",
             "The stated allowances are proved for UPGrad/DualProj/MGDA including the Frank-Wolfe rate 8s²/(K+2); the "
-            "predicate is evaluated with exact rationals on adversarial and exhaustive {-1,0,1} matrices. CAGrad: predicate "
-            "only (solver optimality is a kernel).", NOTE_AGG, "DESIGN.md §5 C04, §10.3"),
+            "predicate is evaluated with exact rationals on adversarial and exhaustive {-1,0,1} matrices. CAGrad: non-conflict is proved "
+            "from the first-order optimality of the solver's answer (a kernel contract, measured); allowance per objective "
+            "(2e-6 |j_i| s + 32 ulp s^2) |omega|_1.", NOTE_AGG, "DESIGN.md §5 C04, §10.3, §10.19"),
     "C08": ("Lean 4 theorems (gramian_aggregator_equivariant and instances, config_in_rowspan, column permutation / "
             "zero-column lemmas; C17b imtlgP_orthogonal_invariant for any rank) + implementation vs the exact any-rank "
             "pseudo-inverse model on rank-deficient matrices + metamorphic correspondence with rational orthogonal Q",
@@ -104,7 +106,8 @@ CLAIMED = {
             "defect bound is proved in squared form (|defect|^2 <= 3 m reg_eps (s^2 S(c) + ...), S from the un-regularised "
             "minimisers, whose existence is a hypothesis supplied by the model's certified search).", NOTE_AGG, "DESIGN.md §5 C09, §10.3"),
     "C10": ("Lean 4 theorems (combine_row_perm, isQPMin_perm + uniqueness => dualproj/upgrad_row_perm, "
-            "trimmedMean/graddrop_row_perm; C10b MGDA/Krum under a positive margin; C17b imtlgP_row_perm / configP_row_perm at any "
+            "trimmedMean/graddrop_row_perm; MGDA: minnorm_point_unique, minnorm_point_row_perm, mgda_perm_defect [the target is order-independent, two runs differ by <= 32 s^2/(K+2)]; "
+            "C10b MGDA/Krum under a positive margin; C17b imtlgP_row_perm / configP_row_perm at any "
             "rank, no uniqueness hypothesis) + exhaustive m! permutation correspondence",
             "Row-permutation invariance is proved for linear, QP-based, TrimmedMean and GradDrop models; MGDA, Krum, CAGrad, "
             "IMTL-G, ConFIG, Aligned-MTL are covered by the exhaustive permutation check (ties excluded).",
